@@ -993,6 +993,16 @@ def _life_coverage(c: Ctx, e: Func) -> dict[str, str]:
         if depth > 4:
             return
         lst = _strip_iter(lst)
+        if isinstance(lst, ast.Attribute) and lst.attr == "children" and isinstance(lst.value, ast.Subscript) \
+                and not isinstance(lst.value.slice, ast.Slice):
+            # <list>[i].children: children of an element of another token list
+            base = _strip_iter(lst.value.value)
+            btxt = U(base)
+            if btxt.endswith(".tokens") and isinstance(base, ast.Attribute) and c.tf.scope(h).type(base.value) == "StateCore":
+                tags.setdefault("inline", via + f"{h.short}: elements of the block stream by index")
+            else:
+                tags.setdefault("nested", via + f"{h.short}: children of `{btxt}[i]`")
+            return
         if isinstance(lst, ast.Attribute) and lst.attr == "children" and isinstance(lst.value, ast.Name):
             owner = lst.value.id
             src = _loop_source(h, owner)
@@ -1023,6 +1033,10 @@ def _life_coverage(c: Ctx, e: Func) -> dict[str, str]:
                 and any(isinstance(t, ast.Attribute) and t.attr == "type" for t in n.targets):
             t = next(t for t in n.targets if isinstance(t, ast.Attribute) and t.attr == "type")
             root = t.value
+            if isinstance(root, ast.Subscript) and not isinstance(root.slice, ast.Slice):
+                # index-based traversal: <list>[i].type = "text"  -> the list itself is what gets converted
+                classify_list(e, root.value, 0, "")
+                continue
             while isinstance(root, (ast.Attribute, ast.Subscript)):
                 root = root.value
             if not isinstance(root, ast.Name):
